@@ -167,6 +167,8 @@ def gen_adup(rng, tier, cs):
         Ms = [_mat(rng, m, n) for m in ms]
         gs = [_fk(rng, m, 'cc') for m in ms]
         inner = [_dy(rng) for _ in ms]
+        # array-valued inner step sizes (np.isscalar false) for some operators
+        innerv = [[_dy(rng) for _ in range(m)] if rng.random() < 0.3 else None for m in ms]
         step = _dy(rng, (0.5, 1.0, 2.0))
         x0 = _vec(rng, n)
         N = _niter(rng, tier, k % 5) if k % 5 else rng.randint(1, 4)
@@ -178,22 +180,23 @@ def gen_adup(rng, tier, cs):
         dom = _rn(n)
         t1, c1 = _rec()
         x = dom.element(x0)
-        adupdates(x, go, Ls, step, inner, N, callback=c1)
+        inner_arg = [iv if iv is not None else i for i, iv in zip(inner, innerv)]
+        adupdates(x, go, Ls, step, inner_arg, N, callback=c1)
         t2, c2 = _rec()
         x = dom.element(x0)
-        adupdates(x, go, Ls, step, inner, N, callback=c2, callback_loop='inner')
+        adupdates(x, go, Ls, step, inner_arg, N, callback=c2, callback_loop='inner')
         ref = []
         for j in range(1, N + 1):
             x = dom.element(x0)
-            adupdates_simple(x, go, Ls, step, inner, j)
+            adupdates_simple(x, go, Ls, step, inner_arg, j)
             ref.append(np.asarray(x).tolist())
-        cs.add('{| kd_nc := %d; kd_Ms := %s; kd_gs := %s; kd_inner := %s; kd_keys := %s; kd_step := %s; kd_x := %s; '
+        cs.add('{| kd_nc := %d; kd_Ms := %s; kd_gs := %s; kd_inner := %s; kd_inner_v := %s; kd_keys := %s; kd_step := %s; kd_x := %s; '
                'kd_n := %d; kd_outer := %s; kd_inner_tr := %s; kd_ref := %s |}'
-               % (n, C.lst(Ms, C.qss), C.lst([g.coq for g in gs]), C.qs(inner), C.nats(keys) + '%nat', C.q(step),
+               % (n, C.lst(Ms, C.qss), C.lst([g.coq for g in gs]), C.qs(inner), C.lst(innerv, _oqs), C.nats(keys) + '%nat', C.q(step),
                   C.qs(x0), N, C.qss(t1), C.qss(t2), C.qss(ref)),
-               {'solver': 'adupdates', 'Ms': Ms, 'g': [g.desc for g in gs], 'inner': inner, 'stepsize': step,
+               {'solver': 'adupdates', 'Ms': Ms, 'g': [g.desc for g in gs], 'inner': inner_arg, 'stepsize': step,
                 'x0': x0, 'niter': N},
-               ('adup', n, tuple(ms), tuple(g.coq for g in gs), step, N, tuple(x0)) if N > 0 else None)
+               ('adup', n, tuple(ms), tuple(g.coq for g in gs), step, str(inner_arg), N, tuple(x0)) if N > 0 else None)
 
 
 def gen_dpdc(rng, tier, cs):
@@ -405,12 +408,19 @@ def gen_em(rng, tier, cs):
         x0 = [rng.choice([0.5, 1.0, 2.0, 3.0, 0.0 if rng.random() < 0.1 else 1.0]) for _ in range(n)]
         N = _niter(rng, tier, k)
         sens = None
-        if rng.random() < 0.3:
+        sens_scalar = None
+        r = rng.random()
+        if r < 0.3:
             sens = [[rng.choice([0.5, 1.0, 2.0, 4.0]) for _ in range(n)] for _ in ms]
+        elif r < 0.45:
+            sens_scalar = rng.choice([0.5, 2.0, 4.0])       # not iterable: used for every operator
+            sens = [[sens_scalar] * n for _ in ms]
         ops = [_mop(M, n) for M in Ms]
         dom = _rn(n)
         kw = {}
-        if sens is not None:
+        if sens_scalar is not None:
+            kw['sensitivities'] = sens_scalar
+        elif sens is not None:
             kw['sensitivities'] = [dom.element(s) for s in sens]
 
         def run(x, it, cb=None):
